@@ -30,4 +30,15 @@ theorem swapRemove_getElem? {α} (l : List α) (i j : Nat) (h : i < l.length) :
       · simp [List.getElem?_set, hji, Ne.symm hji]
     · have : ¬ j < l.length - 1 := by omega
       simp [this, hj]
+theorem mem_swapRemove {α} {l : List α} {i : Nat} {x : α} (h : x ∈ swapRemove l i) : x ∈ l := by
+  unfold swapRemove at h
+  cases hl : l.getLast? with
+  | none => simpa [hl] using h
+  | some last =>
+    simp only [hl] at h
+    have hmem := List.dropLast_subset _ h
+    rcases List.mem_or_eq_of_mem_set hmem with h1 | h1
+    · exact h1
+    · subst h1; exact List.mem_of_getLast? hl
+
 end Brood
